@@ -184,8 +184,10 @@ bool Units::UnitsImpl::performTestWithHistory(History &history, const UnitsConst
         }
 
         history.push_back(h);
+        bool result = importedUnits->pFunc()->performTestWithHistory(history, importedUnits, type, unitsBeingTested);
+        history.pop_back();
 
-        return importedUnits->pFunc()->performTestWithHistory(history, importedUnits, type, unitsBeingTested);
+        return result;
     }
 
     // Units that (directly or indirectly) refer to themselves have nothing
